@@ -16,8 +16,12 @@
 (*   act = [op, res, x, y]: Job(x = 1 short timeout, y = 0 live | 1 caller *)
 (*   cancel closed | 2 internal cancel closed), Msg(x = 0 unrelated |      *)
 (*   1 progress | 2 finishes), Timeout, Disconnect, Cancel(x = 1 caller |  *)
-(*   2 internal), Quit.  res: "none" | "r0".."r3" (result handed back) |   *)
-(*   "exit" | "hang".                                                      *)
+(*   2 internal), Quit, QuitDuring(x): quit is closed while the worker is  *)
+(*   handing back a result that nobody takes any more (the dispatcher has  *)
+(*   left): x = 0 quit arrives while the handler of the finishing answer   *)
+(*   is still running, 1 after the finishing answer, 2 after a disconnect, *)
+(*   3 after a cancel, 4 after the job timeout.                            *)
+(*   res: "none" | "r0".."r3" (result handed back) | "exit" | "hang".      *)
 (***************************************************************************)
 EXTENDS Integers, Sequences, FiniteSets
 
@@ -31,7 +35,7 @@ AbsNext(a, act, o2) ==
          [a EXCEPT !.finOpen = IF act.x = 2 THEN 1 ELSE @,
                    !.open = IF act.res \in {"r0", "r1", "r2", "r3"} THEN 0 ELSE @]
     [] act.op = "Disconnect" -> [a EXCEPT !.disc = 1, !.open = 0]
-    [] act.op = "Quit" -> [a EXCEPT !.quit = 1, !.open = 0]
+    [] act.op \in {"Quit", "QuitDuring"} -> [a EXCEPT !.quit = 1, !.open = 0]
     [] act.op = "Cancel" -> [a EXCEPT !.canc = act.x,
                                       !.open = IF act.res = "r3" THEN 0 ELSE @]
     [] act.op = "Timeout" -> [a EXCEPT !.open = IF act.res = "r1" THEN 0 ELSE @]
@@ -58,6 +62,9 @@ Viol(a, o, act, a2, o2) ==
   \cup (IF o2.exited = 1 /\ a2.disc = 0 /\ a2.quit = 0 THEN {"WorkerLeavesOnlyOnDisconnect"} ELSE {})
   \cup (IF o2.exited = 0 /\ (a2.disc = 1 \/ a2.quit = 1) THEN {"WorkerLeavesOnlyOnDisconnect"} ELSE {})
   \cup (IF act.op = "Job" /\ act.y # 0 /\ o2.queued # o.queued THEN {"WorkerNoSendForCanceledJob"} ELSE {})
+  \* shutdown is never blocked by a worker: once quit is closed Run returns,
+  \* also when it was about to hand back a result
+  \cup (IF act.op \in {"Quit", "QuitDuring"} /\ o2.exited = 0 THEN {"WorkerStopReturns"} ELSE {})
 
 EndViol(a, o) == IF Len(o.res) + a.open # a.jobs /\ a.quit = 0 THEN {"WorkerOneResultPerJob"} ELSE {}
 =============================================================================
